@@ -93,6 +93,7 @@ def sink_len(s):
 
 class C20(PropBase):
     pid = "C20"
+    translators = []
     coq_dirs = ["C20"]
     bins = ["c20"]
     impl_timeout = 1500
